@@ -312,6 +312,16 @@ def run(tier: str, seed: int) -> int:
             ub = jnp.asarray(rng.standard_normal((B, C) + (N,) * D))
             vb = jnp.asarray(rng.standard_normal((B, C) + (N,) * D))
             chk("mean_metric", M.mean_metric(M.nRMSE, ub, vb, domain_extent=L), np.mean([float(M.nRMSE(ub[b], vb[b], domain_extent=L)) for b in range(B)]))
+            # ... call after call with the same keyword NAMES and other VALUES (nothing may be remembered between calls)
+            for L2 in (L, 2.5 * L, 0.3 * L):
+                chk("mean_metric:sequence:domain_extent", M.mean_metric(M.MSE, ub, vb, domain_extent=L2),
+                    np.mean([float(M.MSE(ub[b], vb[b], domain_extent=L2)) for b in range(B)]))
+            for lo, hi in ((0, 1), (2, 3), (1, N // 2)):
+                chk("mean_metric:sequence:band", M.mean_metric(M.fourier_MSE, ub, vb, domain_extent=L, low=lo, high=hi),
+                    np.mean([float(M.fourier_MSE(ub[b], vb[b], domain_extent=L, low=lo, high=hi)) for b in range(B)]))
+            for do in (1, 2):
+                chk("mean_metric:sequence:derivative_order", M.mean_metric(M.fourier_MSE, ub, vb, domain_extent=L, derivative_order=do),
+                    np.mean([float(M.fourier_MSE(ub[b], vb[b], domain_extent=L, derivative_order=do)) for b in range(B)]))
             run_.case(("random", D, N, rep))
     run_.rule = ("one case per terminal TLC state = (D, N, C, band, offset flag, pair of sparse spectra built from 2-3 real basis functions with rational "
                  "amplitudes); each is synthesised on grid N and on a second finer grid and every public metric (all variants: plain, band, derivative, H1) "
